@@ -97,3 +97,12 @@ Theorem C07_resize_returns_the_requested_shape : forall v H W D h w d order,
   exists v', resize v h w d order = Ok v' /\ vshape v' = (h, w, d).
 Proof. exact resize_shape. Qed.
 Print Assumptions C07_resize_returns_the_requested_shape.
+
+Theorem C07_longest_side_becomes_max_size : forall v m ip H W D vi,
+  vshape v = (H, W, D) -> (0 < H)%Z -> (0 < W)%Z -> (0 < D)%Z ->
+  LongestMaxSize_apply v m ip W H D = Ok vi ->
+  let '(h', w', d') := vshape vi in
+  let M := Z.max (Z.max H W) D in
+  (H = M -> h' = m) /\ (W = M -> w' = m) /\ (D = M -> d' = m).
+Proof. exact longest_side_becomes_max_size. Qed.
+Print Assumptions C07_longest_side_becomes_max_size.
